@@ -59,6 +59,19 @@ func buildValidation(level string, id string, raw any) types.ObjectMap {
 func defineIdRecursively(node *types.ObjectMap, id string) {
 	if _, isTypeNode := (*node)["@type"]; isTypeNode {
 		(*node)["@id"] = id
+		// the elements of an array are named <id>_<index>; a node with several arrays of nodes (a node of
+		// the data graph quoted in a trace may have any number) needs the property in the name as well
+		nodeArrays := 0
+		for _, v := range *node {
+			if arr, isArray := v.([]any); isArray {
+				for _, e := range arr {
+					if _, isNode := e.(types.ObjectMap); isNode {
+						nodeArrays++
+						break
+					}
+				}
+			}
+		}
 		for k, v := range *node {
 			switch v := (v).(type) {
 			case types.ObjectMap:
@@ -67,7 +80,11 @@ func defineIdRecursively(node *types.ObjectMap, id string) {
 				for index, e := range v {
 					switch vv := e.(type) {
 					case types.ObjectMap:
-						defineIdRecursively(&vv, fmt.Sprintf("%s_%d", id, index))
+						if nodeArrays > 1 {
+							defineIdRecursively(&vv, fmt.Sprintf("%s_%s_%d", id, k, index))
+						} else {
+							defineIdRecursively(&vv, fmt.Sprintf("%s_%d", id, index))
+						}
 					}
 				}
 			default:
